@@ -49,8 +49,13 @@ CLAIMS = {
          "missing elements as one last bucket so unranked elements score the size of the ranked part / next bucket index; the induced order "
          "does not depend on the order of the rankings; refusal iff (incomplete and scheme not a positive multiple of the four families); "
          "multiples accepted; complete data never refused. The library's consensus is compared with the model and re-judged against the "
-         "documented score definition inside Coq.",
-         "Trusted: Coq kernel + vm_compute; model; harness; float quotient comparison = exact rational comparison for the small integers involved.",
+         "documented score definition inside Coq. The library compares binary64 quotients where the model compares exact means: proved to "
+         "agree (Flocq) for totals <= 2^20 and counts <= 2^10.",
+         "Trusted: Coq kernel + vm_compute; model; harness. The float side is a theorem too (C12_float_means_compare_exactly, FloatMeans.v on Flocq): "
+         "binary64 round-to-nearest quotients of totals <= 2^20 by counts <= 2^10 compare exactly like the rationals; that theorem alone depends on the "
+         "standard library's real-number axioms (ClassicalDedekindReals.sig_forall_dec, sig_not_dec, Classical_Prop.classic, "
+         "FunctionalExtensionality.functional_extensionality_dep), as Print Assumptions reports; that Python's / on these operands is the "
+         "correctly rounded IEEE-754 division is assumed.",
          "DESIGN.md section 4, C12"),
  "C10": ("Coq scan-invariant proof over a Gallina model of pickaperm.py + vm_compute correspondence",
          "Machine-checked for all datasets / scoring functions: every returned ranking is an input (unified when incomplete) of minimal "
